@@ -171,7 +171,10 @@ structure Cfg where
 /-- what a spawned task other than the derived's and the effect's does -/
 inductive AwKind where
   | awaiter   -- `spawn_local(async move { let v = d.await; record(v) })`
-  | reader    -- spawned by a synchronous read under a `SuspenseContext`: `ready().await; drop(handle)`
+  | reader    -- spawned by a synchronous read under a `SuspenseContext`: `ready().await; handle.release()`
+  | reader0   -- such a task after its reader was disposed: its handle has been released already
+  | saw       -- an awaiter under the boundary (`Suspend`-like: `ScopedFuture` in a reader's owner, aborted
+              -- when the reader is disposed): every poll of its `.await` registers the boundary
   | tick      -- `Executor::tick()` of a local resource's fetch: `tx.send(())`
   deriving Repr, DecidableEq, Inhabited
 
@@ -184,6 +187,8 @@ structure Aw where
   kind : AwKind := .awaiter
   /-- a tick task: the number (`nf`) of the fetch it belongs to -/
   tag : Nat := 0
+  /-- a `saw` whose reader was disposed: its next poll ends it without a value -/
+  aborted : Bool := false
   deriving Repr, DecidableEq, Inhabited
 
 structure State where
@@ -257,6 +262,8 @@ structure State where
   coveredCur : Bool := false
   /-- a manual write happened since the fetch in flight started -/
   msetDuring : Bool := false
+  /-- no reader under the boundary is alive (none was created since the last `bdrop`) -/
+  noReader : Bool := true
   deriving Repr, DecidableEq, Inhabited
 
 inductive Event where
@@ -267,7 +274,9 @@ inductive Event where
   | attach
   | poll (j : Nat)
   | get
-  | bread     -- the boundary reads the value synchronously (`get_untracked()` under its owner)
+  | bread     -- a new reader under the boundary reads the value synchronously (`get_untracked()` in its owner)
+  | attachS   -- a new reader under the boundary awaits the value (`ScopedFuture` in its owner)
+  | bdrop     -- every reader under the boundary is disposed (owner cleanup; awaiting futures dropped)
   deriving Repr, DecidableEq, Inhabited
 
 /-- the fetcher: a pure function of the inputs it captured -/
@@ -388,7 +397,7 @@ def startFetch (s : State) : State :=
   let s := { s with firstRun := false, loading := true, version := s.version + 1, dataReg := false }
   -- `suspense_ids = mem::take(&mut guard.suspenses).map(|sc| sc.task_id())`
   let s := { s with idsHeld := s.susp, pending := s.pending + s.susp, susp := 0,
-                    coveredCur := s.readSince, readSince := false, msetDuring := false }
+                    coveredCur := decide (0 < s.susp), readSince := false, msetDuring := false }
   { s with fetchVersion := s.version, pc := .fetching }
 
 /-- `ArcAsyncDerivedInner::needs_rerun`, the task's own question "do I have to run again?":
@@ -494,7 +503,7 @@ def pollE (s : State) : State := eLoop 4 { s with eWoken := false }
 /-! ## awaiters -/
 
 def pollAw (loading : Bool) (value : Option Val) (a : Aw) : Aw :=
-  if a.kind = .tick then { a with woken := false, done := true }
+  if a.kind = .tick ∨ a.aborted = true then { a with woken := false, done := true, parked := false }
   else if loading then { a with woken := false, parked := true }
   else { a with woken := false, done := true, result := value }
 
@@ -510,10 +519,17 @@ def handleDrop (loading : Bool) (a : Option Aw) : Nat :=
   | some a => if a.kind = .reader ∧ a.done = false ∧ loading = false then 1 else 0
   | none => 0
 
+/-- every poll of the `.await` future of a live awaiter under the boundary registers the boundary -/
+def sawPolls (a : Option Aw) : Nat :=
+  match a with
+  | some a => if a.kind = .saw ∧ a.done = false ∧ a.aborted = false then 1 else 0
+  | none => 0
+
 def pollA (s : State) (i : Nat) : State :=
   let fires := tickFires s.nf s.aws[i]?
   { s with aws := modifyAt (pollAw s.loading s.value) s.aws i,
            pending := s.pending - handleDrop s.loading s.aws[i]?,
+           susp := s.susp + sawPolls s.aws[i]?,
            tickFired := s.tickFired || fires,
            dWoken := s.dWoken || (fires && decide (s.pc = .fetching)),
            panicked := s.panicked || (!s.loading && s.value.isNone && !fires) }
@@ -529,10 +545,32 @@ def pollT0 (s : State) : State :=
 (`OnceResource`: only while there is no value, and nothing takes the registrations) -/
 def bread (s : State) : State :=
   if s.once then
-    if s.value = none then { s with pending := s.pending + 1, aws := s.aws ++ [{ kind := .reader }] } else s
+    if s.value = none then
+      { s with pending := s.pending + 1, aws := s.aws ++ [{ kind := .reader }], noReader := false }
+    else { s with noReader := false }
   else
     { s with pending := s.pending + 1, aws := s.aws ++ [{ kind := .reader }], susp := s.susp + 1,
-             readSince := true }
+             readSince := true, noReader := false }
+
+/-- what disposing its reader does to a task: a reader task's handle is released (it goes on waiting for
+`ready()`), an awaiter under the boundary is aborted (its `AbortHandle` wakes it) -/
+def dropAw (a : Aw) : Aw :=
+  if a.kind = .reader then { a with kind := .reader0 }
+  else if a.kind = .saw ∧ a.done = false then { a with aborted := true, woken := true }
+  else a
+
+/-- every reader under the boundary is disposed: their interests end (`SuspenseInterest`, `on_cleanup`):
+registrations not yet taken are dead, task ids held for the fetch in flight and the handles of synchronous
+reads are released at once -/
+def bdrop (s : State) : State :=
+  { s with aws := s.aws.map dropAw, pending := 0, susp := 0, idsHeld := 0, readSince := false,
+           coveredCur := false, noReader := true }
+
+/-- before "a Suspense boundary must not wait … on behalf of a reader that is gone": nothing connected a
+registration to its reader; only the awaiting futures go -/
+def bdropOld (s : State) : State :=
+  { s with aws := s.aws.map fun a => if a.kind = .saw ∧ a.done = false then { a with aborted := true, woken := true } else a,
+           noReader := true }
 
 /-! ## executor -/
 
@@ -580,6 +618,8 @@ def step (s : State) : Event → State
   | .poll j => pollNth s j
   | .get => s
   | .bread => bread s
+  | .attachS => { s with aws := s.aws ++ [{ kind := .saw }], noReader := false }
+  | .bdrop => bdrop s
 
 def run (c : Cfg) (es : List Event) : State := es.foldl step (init c)
 
@@ -603,7 +643,8 @@ def expected (s : State) : Option Val := if s.manualLive then s.lastManual else 
 def lastSeen (s : State) : Option (Option Val) := s.eLog.getLast?.map (·.1)
 
 /-- every awaiter (not: reader or tick tasks) has been resumed with a value -/
-def awsResumed (s : State) : Bool := s.aws.all fun a => a.kind != .awaiter || (a.done && a.result.isSome)
+def awsResumed (s : State) : Bool :=
+  s.aws.all fun a => !(a.kind == .awaiter || a.kind == .saw) || a.aborted || (a.done && a.result.isSome)
 
 /-- the boundary has read from the load in flight (and no manual write interfered) -/
 def suspCovered (s : State) : Bool :=
@@ -613,6 +654,7 @@ def oracle (s : State) : Option String :=
   if s.panicked then some "panic"
   else if (readyList s).isEmpty && suspCovered s && s.pending == 0 then some "suspense-missed"
   else if (readyList s).isEmpty && s.pc != .fetching && s.pending != 0 then some "suspense-stuck"
+  else if s.noReader && s.pending != 0 then some "suspense-stale"
   else if !settled s then none
   else if s.loading then some "loading-stuck"
   else if s.value ≠ expected s then some (if s.stolen then "dirty-stolen" else "stale")
@@ -625,7 +667,9 @@ def oracle (s : State) : Option String :=
 * repair 1 (F-C10-1): before it, `update_if_necessary` asked by a subscriber was the task's own function:
   it consumed `Dirty` (`stolen`), or walked the derived's sources without the derived as observer (a
   changed source memo then marked the derived dirty) and answered whether one had changed;
-* repair 2 (F-C10-2): before it, the initial future was only dropped when `already_dirty`. -/
+* repair 2 (F-C10-2): before it, the initial future was only dropped when `already_dirty`;
+* repair 3 (F-C10-3 = F-C04-5): before it, a boundary's registrations and task ids outlived their readers
+  (`bdropOld`). -/
 
 def dAsSourceOld (s : State) : State × Bool :=
   if s.dstate = .dirty then ({ s with dstate := .clean, stolen := true }, true)
@@ -692,15 +736,18 @@ def pollNthV (f1 f2 : Bool) (s : State) (j : Nat) : State :=
   | some (.a i) => pollA s i
   | none => s
 
-def stepV (f1 f2 : Bool) (s : State) : Event → State
+def stepV (f1 f2 f3 : Bool) (s : State) : Event → State
   | .poll j => pollNthV f1 f2 s j
+  | .bdrop => if f3 then bdrop s else bdropOld s
   | e => step s e
 
-def runV (f1 f2 : Bool) (c : Cfg) (es : List Event) : State := es.foldl (stepV f1 f2) (init c)
+def runV (f1 f2 f3 : Bool) (c : Cfg) (es : List Event) : State := es.foldl (stepV f1 f2 f3) (init c)
 
 /-- the code before repair 1 (F-C10-1) -/
-def runOld1 : Cfg → List Event → State := runV false true
+def runOld1 : Cfg → List Event → State := runV false true true
 /-- the code before repair 2 (F-C10-2) -/
-def runOld2 : Cfg → List Event → State := runV true false
+def runOld2 : Cfg → List Event → State := runV true false true
+/-- the code before repair 3 (F-C04-5 / F-C10-3: stale Suspense registration) -/
+def runOld3 : Cfg → List Event → State := runV true true false
 
 end Leptos.Async
